@@ -115,6 +115,7 @@ func checkC10(c *Ctx) error {
 		}
 	}
 	engineCoverage(c, k.E, "")
+	c.Coverage["bounds"] = map[string]any{"providers_x_unsupplied_types": fmt.Sprint(bounds), "outside": "declarations with more providers are covered only by the signature gate over the corpus"}
 	c.Coverage["explanation"] = fmt.Sprintf("Path-complete bounded execution of the real NewGraph + Graph.Build (+ findOptimalPool, topologicalSortIter, buildStmts, injectContextArg) + generateInjectorDecl on every declaration with %d providers over real go/types named types (Async / fallible bits, requirement subsets over later providers, two unsupplied argument types and context.Context, requirement order), asserting on the resulting ast.FuncDecl: name, parameters = unsupplied types each once, ctx present iff a needed provider is Async or ctx is unsupplied and first iff Async, results = requested type [+ error iff a needed provider is fallible] (%d paths). Gate: the go/types signature of %d generated corpus functions equals the reference evaluator's.", np, len(res), checked)
 	c.Coverage["obligations"] = oblig
 	c.Coverage["evaluations"] = len(res) + checked
